@@ -436,6 +436,9 @@ func runC12(c *Ctx) {
 	r.Require("frames_compared", "rewrite=true", "rewrite=false", "sentinels_ok", "fresh_prepared_select_executes")
 	n := c.Pick(24, 16000)
 	for i := 0; i < n; i++ {
+		if c.Replay != nil && c.Replay["kind"] == "c12-evicted" {
+			break
+		}
 		if c.Replay != nil && c.Replay["kind"] == "c12" {
 			if i != int(c.Replay["idx"].(float64)) {
 				continue
@@ -444,6 +447,11 @@ func runC12(c *Ctx) {
 			continue
 		}
 		c12Config(c, i)
+	}
+	// once per run (shard 0): a prepared SELECT whose entry has left the proxy's prepared cache (takes as many PREPAREs as
+	// the default cache holds: about ten seconds)
+	if (c.Replay == nil && c.Mine(0)) || (c.Replay != nil && c.Replay["kind"] == "c12-evicted") {
+		c12EvictedSelect(c, 1e8/256+2000)
 	}
 }
 
